@@ -29,7 +29,7 @@ CHECKS = {
     "C04": {"level": "exploration", "tests": [hist("TestC04"), direct("TestC04Direct", q=2000, t=200000), hist("TestC04Big", q=300, t=6000, steps=8, tsteps=10)], "assumptions": COMMON_ASSUMPTIONS},
     "C05": {"level": "exploration", "tests": [
         det("TestC05Grid"),
-        direct("TestC05Random", q=100000, t=20000000), hist("TestC05History"), direct("TestWiringC05", q=25, t=150, shards=4)], "assumptions": COMMON_ASSUMPTIONS},
+        direct("TestC05Random", q=100000, t=20000000), hist("TestC05History"), hist("TestC05HistoryBig", q=300, t=6000, steps=8, tsteps=10), direct("TestWiringC05", q=25, t=150, shards=4)], "assumptions": COMMON_ASSUMPTIONS},
     "C06": {"level": "exploration", "tests": [hist("TestC06")], "assumptions": COMMON_ASSUMPTIONS},
     "C07": {"level": "exploration", "tests": [hist("TestC07"), hist("TestC07Big", q=300, t=6000, steps=8, tsteps=10)], "assumptions": COMMON_ASSUMPTIONS},
     "C08": {"level": "exploration", "tests": [hist("TestC08"), hist("TestC08Big", q=300, t=6000, steps=8, tsteps=10), direct("TestWiringC08", q=25, t=150, shards=4)], "assumptions": COMMON_ASSUMPTIONS},
@@ -43,7 +43,7 @@ CHECKS = {
     "C16": {"level": "exploration", "tests": [det("TestC16Validation"), direct("TestC16ValidationRandom", q=20000, t=3000000), direct("TestC16Decode", q=2000, t=200000), direct("TestC16Gate", q=100, t=600, shards=6),
                                               {"name": "FuzzC16Decode", "fuzz": True, "quick": None, "thorough": {"checks": 0, "shards": 1, "timeout": 400, "fuzztime": "120s"}}],
             "assumptions": ["the start-up gate is exercised by running the real cmd/main.go binary up to the Kubernetes client set-up; what main does with the decoded options after the gate is taken on reading"]},
-    "C17": {"level": "exploration", "tests": [direct("TestC17", q=3000, t=400000)], "assumptions": COMMON_ASSUMPTIONS},
+    "C17": {"level": "exploration", "tests": [direct("TestC17", q=3000, t=400000), hist("TestC17History", q=800, t=40000)], "assumptions": COMMON_ASSUMPTIONS},
     "C18": {"level": "fault_enumeration", "tests": [direct("TestC18", q=60, t=800), direct("TestC18Consecutive", q=300, t=30000), hist("TestC18History", q=500, t=15000)], "assumptions": COMMON_ASSUMPTIONS},
     "C19": {"level": "fault_enumeration", "tests": [direct("TestC19Direct", q=3000, t=400000), hist("TestC19History"), hist("TestC19HistoryBig", q=300, t=6000, steps=8, tsteps=10), direct("TestWiringC19", q=25, t=150, shards=4)], "assumptions": COMMON_ASSUMPTIONS},
     "C20": {"level": "fault_enumeration", "tests": [hist("TestC20"), hist("TestC20Dry", q=600, t=15000), hist("TestC20Enum", q=100, t=1500, steps=20, tsteps=25)], "assumptions": COMMON_ASSUMPTIONS},
